@@ -18,6 +18,7 @@ from checks import progrun as PR
 from checks.common import sig_of
 from gen import programs as G
 from sim.monitor import storage_grid, write_monitor
+from sim import harness as H
 from sim.tape import Tape
 
 ID = "C12"
@@ -44,6 +45,9 @@ def budget(tier):
 def generate(tp: Tape, tier: str):
     profile = tp.weighted([("multi", 5), ("general", 4), ("reduce", 3), ("rechunk", 3)])
     case = c01.generate(tp, tier, profile=profile, allow_zero_default=True)
+    # second phase: the first requested array is stored lazily into an existing Zarr array of another (or the same)
+    # chunking and the *returned* lazy array is used by a further operation
+    case["store_then_use"] = tp.weighted([(None, 3), ("ones", 1), ("half", 1), ("same", 1), ("double", 1)])
     return case
 
 
@@ -88,6 +92,8 @@ def execute(case, sched=None):
                         if not grid_compatible(d["chunks"], grid):
                             violations.append(dict(cls="backing_array_chunks_differ",
                                                    msg=f"value {vid}: declared chunks {d['chunks']} stored grid {grid}"))
+        if rr.results is not None and case.get("store_then_use") and not violations:
+            violations.extend(store_then_use(rr, case, records))
     # every write: no broadcast, no truncation
     n_checked = 0
     for r in records:
@@ -119,6 +125,60 @@ def execute(case, sched=None):
                 sig=sig_of(case["prog"], case["exec"], case["opt"], dg), nontrivial=nontrivial,
                 counters=counters, vtime=rr.sim.now, tape=list(rr.tape.record),
                 outcome=dict(phase=rr.phase, exc=repr(rr.exc)[:200] if rr.exc else None))
+
+
+def store_then_use(rr, case, records):
+    """Lazy store of a requested array into an existing Zarr array, then an operation on the returned array."""
+    import cubed
+    import cubed.array_api as xp
+    import zarr
+
+    from sim.store import SimStore
+
+    out = []
+    shadow = G.shadow_of(case["prog"])
+    for vid, a in zip(rr.requested, rr.arrays):
+        if a.ndim == 0 or a.size == 0 or a.dtype.fields is not None or shadow.random[vid]:
+            continue
+        how = case["store_then_use"]
+        cs = a.chunksize
+        tchunks = {"ones": tuple(1 for _ in cs), "half": tuple(max(1, c // 2) for c in cs), "same": tuple(cs),
+                   "double": tuple(min(n, 2 * c) for n, c in zip(a.shape, cs))}[how]
+        ts = SimStore(name="c12target")
+        rr.sim.attach_store(ts)
+        ts.sh.tracing = False
+        z = zarr.create_array(ts, shape=a.shape, dtype=a.dtype, chunks=tchunks)
+        ts.sh.tracing = True
+        try:
+            lazy = cubed.to_zarr(a, z, compute=False)
+            down = xp.logical_or(lazy, lazy) if a.dtype.kind == "b" else xp.add(lazy, lazy)
+        except Exception:  # noqa: BLE001 - declined while building
+            rr.sim.count("store_then_use_declined")
+            return out
+        d_lazy, d_down = declared(lazy), declared(down)
+        with write_monitor(rr.sim, records):
+            res, phase, exc = PR.compute(rr, arrays=[lazy, down])
+        if res is None:
+            if phase == "execute" and not isinstance(exc, (H.SimHang, H.SimStepLimit)):
+                out.append(dict(cls="store_then_use_failed_in_execution",
+                                msg=f"value {vid} stored lazily into chunks {tchunks} (source chunks {cs}), then used: "
+                                    f"{type(exc).__name__}: {str(exc)[:160]} at {PR.exc_where(exc)}"))
+            return out
+        rr.sim.count("store_then_use_runs")
+        want = shadow.values[vid]
+        want2 = np.logical_or(want, want) if a.dtype.kind == "b" else want + want
+        for label, got, w, d in (("returned array", res[0], want, d_lazy), ("operation on the returned array", res[1], want2, d_down)):
+            got = np.asarray(got)
+            if tuple(got.shape) != d["shape"]:
+                out.append(dict(cls="result_shape_differs_from_declared", msg=f"{label}: declared {d['shape']} result {got.shape}"))
+                continue
+            dd = G.compare(got, w, exact=shadow.exact[vid], lowprec=shadow.lowprec[vid])
+            if dd is not None:
+                out.append(dict(cls="wrong_value_after_lazy_store",
+                                msg=f"value {vid} stored lazily into chunks {tchunks} (source chunks {cs}): {label}: {dd}; "
+                                    f"declared chunks of the returned array {d_lazy['chunks']}, stored grid {storage_grid(z)}"))
+        return out
+    return out
 
 
 def grid_compatible(declared_chunks, grid):
